@@ -2,7 +2,10 @@
 Table._calculate_column_widths and the rendered table.
 
 Table description (the `arg` of table_widths / table_render):
-  [opts, box?, cols, rows, W, [title?, caption?], copts]
+  [opts, box?, cols, rows, W, [title?, caption?], copts, [styled, nested]]
+  styled = 1: every cell / header is a Text whose alternate 2-character runs carry a style (several segments
+  per line); nested = k > 0: the cells of column 0 in the data rows are Table(width=k, box=None, padding=0,
+  show_header=False) holding the (single-word, <= k cells) text
   copts = [no_wrap (0 None/1 True/2 False), soft_wrap, justify (0 None, 1..4), overflow (0 None, 1 fold/2 crop/
            3 ellipsis), crop, mode (0 = console.render(table, console.options.update(...)), 1 = console.print(table, ...)
            captured)] -- the console-level options the table is rendered / printed under
@@ -27,7 +30,7 @@ BOX_NAMES = ["ASCII", "ASCII2", "ASCII_DOUBLE_HEAD", "SQUARE", "SQUARE_DOUBLE_HE
              "MINIMAL_HEAVY_HEAD", "MINIMAL_DOUBLE_HEAD", "SIMPLE", "SIMPLE_HEAD", "SIMPLE_HEAVY",
              "HORIZONTALS", "ROUNDED", "HEAVY", "HEAVY_EDGE", "HEAVY_HEAD", "DOUBLE", "DOUBLE_EDGE"]
 JUSTIFY = ["left", "center", "right", "full"]
-OVERFLOW = ["fold", "crop", "ellipsis"]
+OVERFLOW = ["fold", "crop", "ellipsis", "ignore"]
 FOLD = 0
 
 # characters that occur only in one row: header, rows 0..7, footer (two narrow, one double-width)
@@ -35,7 +38,10 @@ WIDE_POOL = "あ中日本語한글文字漢"
 ROW_CHARS = []
 for _k in range(10):
     ROW_CHARS.append(chr(ord("A") + 2 * _k) + chr(ord("a") + 2 * _k + 1) + WIDE_POOL[_k])
-WIDE = set(WIDE_POOL)
+# double-width characters at boundaries of the cell-width table (first Hangul Jamo, CJK symbols, fullwidth
+# forms, emoji) for cells that get clipped
+EDGE_WIDE = "\u1100\u3007\uff21\U0001f600"
+WIDE = set(WIDE_POOL) | set(EDGE_WIDE)
 
 # what the model is told about the as-found behaviours (flipped by the coordinator once the
 # corresponding fix: commits are in /repo; see notes/C07.md)
@@ -67,7 +73,7 @@ def text_measure(s):
 # a row dropped, a text halved -- are valid tables and shrinking proceeds.
 DEFAULT_OPTS = [1, 1, 1, 0, 0, 0, [0, 1, 0, 1], 0, 1, 0, [], []]
 ALLOWED = set(ord(c) for c in " \n") | set(range(ord("A"), ord("Z") + 1)) | set(range(ord("a"), ord("z") + 1)) \
-    | set(ord(c) for c in WIDE_POOL)
+    | set(ord(c) for c in WIDE_POOL) | set(ord(c) for c in EDGE_WIDE)
 
 
 def _flag(x):
@@ -86,8 +92,28 @@ def _text(x):
     return [c if c in ALLOWED else 120 for c in x if isinstance(c, int)]
 
 
+def nested_word(t, k):
+    """the text a nested fixed-width cell holds: first word, cut to at most k cells"""
+    w = []
+    n = 0
+    for c in t:
+        if c in (32, 10):
+            if w:
+                break
+            continue
+        n += 2 if chr(c) in WIDE else 1
+        if n > k:
+            break
+        w.append(c)
+    return w
+
+
 def sanitize(d):
     d = list(d) if isinstance(d, list) else []
+    xt = d[7] if len(d) > 7 and isinstance(d[7], list) else []
+    xt = [x if isinstance(x, int) else 0 for x in xt[:2]]
+    xt = xt + [0, 0][len(xt):]
+    xt = [_flag(xt[0]), max(0, min(30, xt[1]))]
     co = d[6] if len(d) > 6 and isinstance(d[6], list) else []
     co = [x if isinstance(x, int) else 0 for x in co[:6]]
     co = co + [0, 0, 0, 0, 1, 0][len(co):]
@@ -107,7 +133,7 @@ def sanitize(d):
         c = list(c) if isinstance(c, list) else []
         c = c[:9] + [[], [], [], [], 0, 0, 0, [], []][len(c[:9]):]
         cols.append([_optint(c[0], 1, 60), _optint(c[1], 1, 60), _optint(c[2], 1, 60), _optint(c[3], 1, 9), _flag(c[4]),
-                     c[5] % 4 if isinstance(c[5], int) else 0, c[6] % 3 if isinstance(c[6], int) else 0,
+                     c[5] % 4 if isinstance(c[5], int) else 0, c[6] % 4 if isinstance(c[6], int) else 0,
                      _text(c[7]), _text(c[8])])
     if not cols:
         cols = [[[], [], [], [], 0, 0, 0, [], []]]
@@ -118,12 +144,14 @@ def sanitize(d):
         cells = r[0] if r and isinstance(r[0], list) else []
         cells = [_text(x) for x in cells[:n]]
         cells = cells + [[] for _ in range(n - len(cells))]
+        if xt[1] and cells:
+            cells[0] = nested_word(cells[0], xt[1])
         rows.append([cells, _flag(r[1]) if len(r) > 1 else 0])
     W = max(1, min(250, d[4])) if isinstance(d[4], int) else 20
     ex = d[5] if isinstance(d[5], list) else []
     ex = (list(ex) + [[], []])[:2]
     extras = [[_text(e[0])] if isinstance(e, list) and e and isinstance(e[0], list) and e[0] else [] for e in ex]
-    return [opts, box, cols, rows, W, extras, co]
+    return [opts, box, cols, rows, W, extras, co, xt]
 
 
 # ---------------------------------------------------------------- generators
@@ -198,7 +226,21 @@ def rdesc(rng, plain=False):
     if not plain and rng.random() < 0.45:
         copts = [rng.choice([0, 1, 1, 2]), 1 if rng.random() < 0.3 else 0, rng.randrange(5), rng.randrange(4),
                  rng.randint(0, 1), rng.randint(0, 1)]
-    desc = [opts, box, cols, rows, 0, extras, copts]
+    xt = [0, 0]
+    if not plain and rng.random() < 0.3:
+        xt = [1 if rng.random() < 0.7 else 0, rng.choice([0, 0, 3, 6, 12, 25])]
+        # cells that get clipped: unwrapped columns holding runs of double-width characters longer than the column
+        for col in cols:
+            if rng.random() < 0.6:
+                col[6] = rng.choice([3, 3, 1])
+                col[4] = 1 if rng.random() < 0.3 else 0
+        for ri, r in enumerate(rows):
+            for j in range(ncols):
+                if rng.random() < 0.6:
+                    pool = ROW_CHARS[1 + ri] + EDGE_WIDE + ROW_CHARS[1 + ri][2] * 3
+                    r[0][j] = s2t("".join(rng.choice(pool) for _ in range(rng.randint(4, 30))))
+    desc = [opts, box, cols, rows, 0, extras, copts, xt]
+    desc = sanitize(desc)
     sm = smin(desc)
     r = rng.random()
     if r < 0.12:
@@ -340,6 +382,12 @@ def model_cols(desc):
     out = []
     for j, col in enumerate(desc[2]):
         cells = [text_measure(t) for t in column_texts(desc, j)]
+        k = desc[7][1] if len(desc) > 7 else 0
+        if k and j == 0:
+            # Table(width=k).__rich_measure__ = (widest cell minimum, k)
+            first = 1 if desc[0][2] else 0
+            for i in range(len(desc[3])):
+                cells[first + i] = [cells[first + i][0], k]
         out.append([col[0], col[1], col[2], col[3], col[4], cells])
     return out
 
@@ -352,13 +400,24 @@ def model_case(op, arg):
 
 
 # ---------------------------------------------------------------- implementation side
+def mk_cell(text, styled):
+    """str, or a Text whose alternate 2-character runs are styled (-> several segments per line)"""
+    if not styled:
+        return text
+    from rich.text import Text
+    t = Text(text)
+    for i in range(0, len(text), 4):
+        t.stylize("bold", i, i + 2)
+    return t
+
+
 def build(desc, with_annot=True):
     from rich.table import Table, Column
     from rich import box as rbox
-    opts, bx, cols, rows, W, extras, copts = desc
+    opts, bx, cols, rows, W, extras, copts, xt = desc
     columns = []
     for col in cols:
-        columns.append(Column(header=t2s(col[7]), footer=t2s(col[8]),
+        columns.append(Column(header=mk_cell(t2s(col[7]), xt[0]), footer=mk_cell(t2s(col[8]), xt[0]),
                               width=col[0][0] if col[0] else None,
                               min_width=col[1][0] if col[1] else None,
                               max_width=col[2][0] if col[2] else None,
@@ -373,7 +432,12 @@ def build(desc, with_annot=True):
               collapse_padding=bool(opts[7]), pad_edge=bool(opts[8]), expand=bool(opts[9]),
               width=opts[10][0] if opts[10] else None, min_width=opts[11][0] if opts[11] else None)
     for cells, end_section in rows:
-        t.add_row(*[t2s(c) for c in cells], end_section=bool(end_section))
+        objs = [mk_cell(t2s(c), xt[0]) for c in cells]
+        if xt[1] and objs:
+            inner = Table(width=xt[1], box=None, padding=0, show_header=False)
+            inner.add_row(mk_cell(t2s(cells[0]), xt[0]))
+            objs[0] = inner
+        t.add_row(*objs, end_section=bool(end_section))
     return t
 
 
@@ -457,7 +521,7 @@ def impl(op, arg):
     if op == "cells_raw":
         op = "table_render"
     desc = sanitize(arg)
-    opts, bx, cols, rows, W, extras, copts = desc
+    opts, bx, cols, rows, W, extras, copts, xt = desc
     con = console(W)
     t = build(desc, with_annot=False)
     target = opts[10][0] if opts[10] else W
@@ -528,7 +592,7 @@ def spec_cases(op, arg, out):
         # the property's statement without the theorem's per-column hypothesis (cell_room): every fold,
         # wrapping column is held to "all its characters, in order, inside its span"
         desc = sanitize(arg)
-        opts, bx, cols, rows, W, extras, copts = desc
+        opts, bx, cols, rows, W, extras, copts, xt = desc
         widths, out_rows, body, annot_ok = out
         colspec = []
         for j in range(len(cols)):
@@ -538,7 +602,7 @@ def spec_cases(op, arg, out):
         return [("spec.cells_in_columns", [bx, opts[1], [STALE, opts, model_cols(desc), W], colspec, body])]
     if op == "table_render":
         desc = sanitize(arg)
-        opts, bx, cols, rows, W, extras, copts = desc
+        opts, bx, cols, rows, W, extras, copts, xt = desc
         widths, out_rows, body, annot_ok = out
         n = len(cols)
         target = opts[10][0] if opts[10] else W
@@ -585,13 +649,13 @@ def spec_cases(op, arg, out):
             # ... or the user capped the column below one character of its cells (width / max_width)
             capped = (cols[j][0] and cols[j][0][0] < need(j)) or (cols[j][2] and cols[j][2][0] < need(j))
             return bool(capped) or (bool(cols[j][3]) and need(j) > (cols[j][0][0] if cols[j][0] else 1))
-        all_fold = all(c[6] == FOLD and not c[4] for c in cols) \
+        all_fold = all(c[6] == FOLD and not c[4] for c in cols) and not xt[1] \
             and all(len(rs) == len(cl) for rs, cl in zip(rowsets, classes)) \
             and all(widths[j] - padding_width(desc, j) >= need(j) for j in range(n) if in_known_class(j))
         res.append(("spec.rows_ordered", [classes, 1 if all_fold else 0, body]))
         colspec = []
         for j in range(n):
-            fold = cols[j][6] == FOLD and not cols[j][4]
+            fold = cols[j][6] == FOLD and not cols[j][4] and not (xt[1] and j == 0)
             chars = [ord(c) for t in column_texts(desc, j) for c in t if not c.isspace()]
             colspec.append([1 if fold else 0, need(j) if in_known_class(j) else 0, padding_width(desc, j), chars])
         res.append(("spec.cells_in_columns", [bx, opts[1], [STALE, opts, model_cols(desc), W], colspec, body]))
@@ -616,7 +680,7 @@ def known_ratio_column_min(op, arg):
 def describe(op, arg):
     try:
         if op in ("table_widths", "table_render", "cells_raw"):
-            opts, bx, cols, rows, W, extras, copts = sanitize(arg)
+            opts, bx, cols, rows, W, extras, copts, xt = sanitize(arg)
             return (f"Table {len(cols)} cols x {len(rows)} rows, box={BOX_NAMES[bx[0]] if bx else None}, W={W}, "
                     f"expand={opts[9]} width={opts[10]} min_width={opts[11]} leading={opts[5]} padding={opts[6]} "
                     f"console opts (no_wrap,soft_wrap,justify,overflow,crop,print)={copts}")
